@@ -17,8 +17,12 @@ CHECKS = {
               "none_connected, find_sources, find_all_paths (exactly the simple paths that extend the given prefix: sound and "
               "complete, partial correctness), find_longest_paths(+exist) are proved for all graphs and vertices against "
               "closure-based specifications (post-conditions are exact: iff / set equality), every obligation discharged by z3 "
-              "from the current source. find_all_reachable is only checked by a bounded exhaustive "
-              "stand-in (all digraphs <= 3 vertices quick, <= 4 thorough) and is not counted as proved. Every query, proved or not, is also compared with the reference on all small digraphs in both tiers (incl. a source vertex that is an equal but not identical object), and graph_utils must keep no module-level state."),
+              "from the current source. find_all_reachable is proved to return exactly the vertices that lie on a simple path from "
+              "the vertex (the union over ALL simple paths although it iterates over the maximal ones: one induction lemma -- every "
+              "member of a finite list of sequences is, or is a proper prefix of, a member that is a proper prefix of no member -- "
+              "is proved in lean/MaxPrefix.lean and re-checked by lean in the thorough tier); that this set equals the "
+              "reflexive-transitive closure of the edge relation is not proved (bounded: all digraphs <= 3 vertices quick, <= 4 "
+              "thorough). Every query, proved or not, is also compared with the reference on all small digraphs in both tiers (incl. a source vertex that is an equal but not identical object), and graph_utils must keep no module-level state."),
         note=("trusted: pyvc's Python-subset encoding, collection axioms, least-fixpoint induction schema, partial "
               "correctness (termination not proved), abstract vertex equality (identity vs equality of vertex objects is "
               "only covered by the bounded part)"),
